@@ -173,8 +173,11 @@ def r13_3(ctx):
     # can_put numeric boundary
     cp = ctx.repo.method(WORKPLACE, "can_put")
     for size, exp in ((0.5, True), (1.0, True), (1.5, False), (3.0, False)):
-        c1, c2, cand = Obj("c1", COMPONENT), Obj("c2", COMPONENT), Obj("cand", COMPONENT)
-        heap = {("self", "max_space_size"): Poly.const(3), ("c1", "space_size"): Poly.const(1), ("c2", "space_size"): Poly.const(1), ("cand", "space_size"): Poly.const(size)}
+        # c1 is a top-level component, c2 a child placed on its own (its parent is elsewhere): both take space here
+        c1, c2, cand, par = Obj("c1", COMPONENT), Obj("c2", COMPONENT), Obj("cand", COMPONENT), Obj("par", COMPONENT)
+        heap = {("self", "max_space_size"): Poly.const(3), ("c1", "space_size"): Poly.const(1), ("c2", "space_size"): Poly.const(1), ("cand", "space_size"): Poly.const(size),
+                ("c1", "parent_component_list"): ListV([]), ("c2", "parent_component_list"): ListV([par]), ("c1", "child_component_list"): ListV([]),
+                ("c2", "child_component_list"): ListV([]), ("par", "space_size"): Poly.const(1), ("par", "placed_workplace"): Const(None)}
         I = mk_interp(ctx, inline=lambda call, callee, depth: callee.cls == WORKPLACE, collections={"self.placed_component_list": [c1, c2]}, max_depth=2)
         outs = I.run_function(cp, bind={"component": cand, "__defaults__": True}, heap=heap)
         for st, ex in outs:
@@ -182,7 +185,7 @@ def r13_3(ctx):
             got = v.v if isinstance(v, Const) else None
             ctx.instance(construct(cp, f"size={size}"))
             if got is not exp:
-                ctx.violation(construct(cp, "capacity"), cp.loc(), f"can_put: capacity 3 with 2 used, component of size {size} => {v!r} (expected {exp})")
+                ctx.violation(construct(cp, "capacity"), cp.loc(), f"can_put: capacity 3 holding a top-level component and a separately placed child (size 1 each), candidate of size {size} => {v!r} (expected {exp})")
     ctx.end()
 
 
